@@ -315,6 +315,33 @@ def _model_case(args):
                     cb = float(cost())
                     if cb < ca - 1e-5 * max(1.0, abs(ca)):
                         problem('not-monotone-in-mask-magnitude', 'discrete=%s: cost %.9g at |masks|, %.9g at component-wise larger |masks|' % (disc, ca, cb))
+                    if disc:
+                        # discretised cost: an element that is currently binarised away and whose switching on
+                        # raises the metric must still get a non-zero (straight-through) gradient
+                        with torch.no_grad():
+                            for n_, p in w.named_nas_parameters():
+                                p.copy_(lo[n_])
+                        cd = cost()
+                        cdf = float(cd)
+                        nasd = [p for _, p in w.named_nas_parameters() if p.requires_grad]
+                        gd = torch.autograd.grad(cd, nasd, allow_unused=True) if (isinstance(cd, torch.Tensor) and cd.requires_grad) \
+                            else [None] * len(nasd)
+                        for pi, (p, g) in enumerate(zip(nasd, gd)):
+                            idxs = [i for i in range(p.numel()) if 0 < abs(float(p.view(-1)[i])) < .5]
+                            rng.shuffle(idxs)
+                            for i in idxs[:3]:
+                                with torch.no_grad():
+                                    old = float(p.view(-1)[i])
+                                    p.view(-1)[i] = math.copysign(1.0, old)
+                                c1 = float(cost())
+                                with torch.no_grad():
+                                    p.view(-1)[i] = old
+                                gi = 0.0 if g is None else float(g.view(-1)[i])
+                                if c1 - cdf > 1e-3 * max(1.0, abs(cdf)) and gi == 0.0:
+                                    problem('zero-gradient-on-live-element:discrete',
+                                            'discrete cost: NAS parameter %d element %d: cost %.6g -> %.6g when the element is switched on '
+                                            '(%g -> %g), gradient %s' % (pi, i, cdf, c1, old, math.copysign(1.0, old),
+                                                                        'None' if g is None else 'exactly 0'))
                     with torch.no_grad():
                         for _, p in w.named_nas_parameters():
                             p.fill_(1.0)
@@ -381,6 +408,19 @@ def run(chk):
             lines.append(_line(case, sname, fn.__name__, groups))
             reals.append((val, grads))
             meta.append((case, sname, fn.__name__))
+            # oracle at layer level: a feature that is (binarised) off and whose switching on raises the
+            # metric gets a non-zero gradient, in continuous and in discretised mode alike
+            for i, a in enumerate(case['alpha'][:-1]):          # the last feature is the keep-alive one
+                if not (0 < abs(a) <= .5) or rng.random() > .5:
+                    continue
+                c2 = dict(case, alpha=list(case['alpha']))
+                c2['alpha'][i] = math.copysign(1.0, a)
+                v2 = _eval_real(c2, fn)[0]
+                if v2 - val > 1e-3 * max(1.0, abs(val)) and grads[0][i] == 0.0:
+                    chk.violation('C12:zero-gradient-on-live-element:layer:%s:%s' % (case['kind'], 'discrete' if case['discrete'] else 'continuous'),
+                                  '%s.%s on a stand-alone PIT %s layer: switching feature %d on (alpha %g -> %g) raises the cost %.6g -> %.6g, '
+                                  'its gradient is exactly 0 / None' % (sname, fn.__name__, case['kind'], i, a, c2['alpha'][i], val, v2),
+                                  dict(case, kind_='layer-grad', spec=sname, fn=fn.__name__, index=i))
     answers = chk.driver('C12', lines)
     for (case, sname, fname), (val, grads), ans in zip(meta, reals, answers):
         cid = dict(case, kind_='layer', spec=sname, fn=fname)
@@ -475,9 +515,16 @@ def replay(data):
         print(o)
         return 1 if o['problems'] else 0
     import plinio.cost as pc
-    c = {k: v for k, v in case.items() if k not in ('kind_', 'spec', 'fn')}
+    c = {k: v for k, v in case.items() if k not in ('kind_', 'spec', 'fn', 'index')}
     import importlib
     mod = importlib.import_module('plinio.cost.' + case['spec'])
     val, grads, groups = _eval_real(c, getattr(mod, case['fn']))
     print('value', val, 'grads', grads)
+    if case.get('kind_') == 'layer-grad':
+        i = case['index']
+        c2 = dict(c, alpha=list(c['alpha']))
+        c2['alpha'][i] = math.copysign(1.0, c['alpha'][i])
+        v2 = _eval_real(c2, getattr(mod, case['fn']))[0]
+        print('feature %d switched on: value %r; its gradient before: %r' % (i, v2, grads[0][i]))
+        return 1 if (v2 - val > 1e-3 * max(1.0, abs(val)) and grads[0][i] == 0.0) else 0
     return 0 if (math.isfinite(val) and val >= 0) else 1
